@@ -30,6 +30,7 @@ def main():
     chk = core.Check(pid, a.tier, seed)
     try:
         if a.replay:
+            chk.replay_mode = True
             rc = mod.replay(chk, a.replay)
         else:
             mod.run(chk)
